@@ -2,6 +2,7 @@
 
 from __future__ import annotations
 
+import ast
 import json
 import os
 import time
@@ -73,6 +74,42 @@ def rule(prop: str, rid: str, floor: int = 1, desc: str = "", kind: str = "S"):
     return deco
 
 
+CURRENT = None   # the Ctx of the property being evaluated (for the inline-aware syntax walk)
+
+
+def walk_local(fnode):
+    """``program.walk_local`` plus the bodies of the helpers inlined into that function (see inline.py).
+
+    Rules that inspect the syntax of an anchored function use this walk, so that code moved into a helper
+    unknown to the reference tree is still seen where it is called."""
+    from .program import walk_local as _wl
+    yield from _wl(fnode)
+    ctx = CURRENT
+    if ctx is None:
+        return
+    fi = ctx.func_of_node(fnode)
+    if fi is None:
+        return
+    try:
+        cfg = ctx.cfgs.get(fi)
+    except AnalysisError:
+        return
+    from .inline import SplicedBody
+    for body in cfg.inlined_bodies:
+        todo = list(reversed(body))
+        while todo:
+            n = todo.pop()
+            yield n
+            if isinstance(n, (ast.FunctionDef, ast.AsyncFunctionDef, ast.ClassDef, ast.Lambda)):
+                continue
+            if isinstance(n, SplicedBody):
+                # the caller's own statements (already walked); only the synthesised binding is new
+                if n.body:
+                    todo.append(n.body[0])
+                continue
+            todo.extend(ast.iter_child_nodes(n))
+
+
 class Ctx:
     """Everything a rule may consult."""
 
@@ -104,6 +141,27 @@ class Ctx:
     def func(self, q: str) -> FuncInfo:
         self.functions_analysed.add(q)
         return self.program.func(q)
+
+    def absorbed(self, fi: FuncInfo) -> bool:
+        """*fi* is a helper unknown to the reference tree whose every call site was inlined: its code is analysed
+        where it is called, so rules that range over 'all functions of X' leave the stand-alone copy alone."""
+        inl = self.cfgs.inliner
+        if not inl.is_new(fi):
+            return False
+        if not getattr(self, "_all_built", False):
+            for f in self.program.all_funcs():
+                try:
+                    self.cfgs.get(f)
+                except AnalysisError:
+                    pass
+            self._all_built = True
+        return fi.qualname in inl.inlined and not inl.declined_sites.get(fi.qualname)
+
+    def func_of_node(self, fnode) -> Optional[FuncInfo]:
+        m = getattr(self, "_by_node", None)
+        if m is None:
+            m = self._by_node = {id(f.node): f for f in self.program.all_funcs()}
+        return m.get(id(fnode))
 
     def method(self, cls_q: str, name: str) -> FuncInfo:
         f = self.program.method(cls_q, name)
@@ -177,6 +235,8 @@ def run_property(prop: str, repo: str, tier: str = "quick", ctx: Optional[Ctx] =
         run.wall = time.time() - t0
         return run
     run.ctx = ctx
+    global CURRENT
+    CURRENT = ctx
     defs = RULES.get(prop, [])
     if not defs:
         run.errors.append("no rules registered for %s" % prop)
